@@ -35,7 +35,7 @@ from vf.specs.patterns import INF, Unspecified, is_pat
 
 LIMIT = 64
 NPROC = 16
-CASE_TIMEOUT = 10      # s; a pattern that needs longer for 64 items hangs
+CASE_TIMEOUT = 5      # s; a pattern that needs longer for 64 items hangs
 I = INF
 
 
@@ -95,8 +95,15 @@ POOL = [
     ('Pslide', [1, 2, 3, 4], 3, 2, 2, 1, False),
     ('Pslide', [1, 2, 3, 4], I, 2, -1, 0, True),
     ('Plen', 2, 7),
+    ('Pseq', [1, 2], 2, 0), ('Pseq', [3, 1, 2], 1, 2), ('Pser', [1, 2, 3], 2, 2),
+    ('Pseries', 1, 2, 5), ('Pseries', -3, 1, I), ('Pgeom', 1, -2, 6),
+    ('Pgeom', 2, 1, I), ('Place', [[1, 2], [3, 4, 5]], 3, 0),
+    ('Pslide', [1, 2, 3, 4], 3, 1, -1, 2, False),
+    ('Pslide', [1, 2, 3, 4], 2, 2, 1, 3, False),
+    ('Pconst', 5, 2), ('Pswitch1', [1, 2, 3], 1), ('Pser', [4, 5], 8, 0),
 ]
-SMALL = [POOL[0], POOL[2], POOL[9], POOL[7], POOL[4], POOL[13]]
+SMALL = [POOL[0], POOL[2], POOL[9], POOL[7], POOL[4], POOL[13], POOL[24],
+         POOL[33]]
 NATS = [('Pseq', [1, 2], 1, 0), ('Pseq', [2, 0, 1], I, 0), ('Pseries', 0, 1, 3)]
 IDX2 = [0, 1, ('Pseq', [0, 1, 1, 0], 1, 0), ('Pseq', [1, 0], I, 0)]
 BOOLS = [True, False, ('Pseq', [True, False, False, True], 1, 0),
@@ -947,14 +954,14 @@ def main(rep):
                   'Pflatten(Pclump(.))) over 27 constructors: depth-1 '
                   'parameter grids (repeats {0,1,2,inf}, offsets < len, n 0..3, '
                   'Pslide 320 combinations, ...) and every constructor over a '
-                  'pool of 21 depth-1 sub-patterns in each pattern slot',
+                  'pool of %d depth-1 sub-patterns in each pattern slot' % len(POOL),
             rule='enumerated by depth1()/depth2(); non-trivial = den defined '
                  'and non-empty; unspecified corners counted separately',
             exhaustive=True)
         if rep.tier == 'thorough':
-            total, depths = 120000, (3, 4)
+            total, depths = 160000, (3, 4)
         else:
-            total, depths = 24000, (2, 3)
+            total, depths = 60000, (2, 3)
         texts = []
         seen = set()
         tries = 0
